@@ -8,7 +8,7 @@ from vlib import props as P
 ids = [json.loads(l)["id"] for l in open(os.path.join(HERE, "properties.jsonl"))]
 old = json.load(open(os.path.join(HERE, "MANIFEST.json")))
 hooks = subprocess.check_output(["git", "-C", "/repo", "log", "--format=%h %s"]).decode().splitlines()
-hook_commits = [l.split()[0] for l in hooks if l.split(" ", 1)[1].startswith("verif hooks")][::-1]
+hook_commits = [l.split()[0] for l in hooks if l.split(" ", 1)[1].startswith(("verif hooks", "verification hook"))][::-1]
 checks = []
 for pid in ids:
     if pid not in P.PROPS:
